@@ -36,8 +36,12 @@ def mk(run, cfg):
     s.setup(data, **kw)
     s.update(dts[0])
     s.adjust(run.integer('cap', 10 ** 5, 10 ** 7) if integer else run.real('cap', 10 ** 5, 10 ** 7))
+    fixed = cfg.get('prior_fixed') or {}
     for n in cols:
-        q = run.integer('p' + n, -500, 500) if integer else run.real('p' + n, -500, 500)
+        if n in fixed:
+            q = fixed[n]               # whole-unit configurations keep one symbolic prior position (mixed-integer queries get slow otherwise)
+        else:
+            q = run.integer('p' + n, -500, 500) if integer else run.real('p' + n, -500, 500)
         s.transact(q, n)
     s.update(dts[0])
     s.update(dts[1])
@@ -183,7 +187,10 @@ def plan(tier):
     for tg in costly:
         for integer in (0, 1):
             for cash in ((None,) if quick else (None, 0.25)):
-                tasks.append(dict(harness='rebal', cfg=dict(targets=tg, cash=cash, fee=['prop', 0.001953125], spread=1, int=integer), opts=opts))
+                cfg = dict(targets=tg, cash=cash, fee=['prop', 0.001953125], spread=1, int=integer)
+                if integer:
+                    cfg['prior_fixed'] = {'b': -30, 'c': 40}
+                tasks.append(dict(harness='rebal', cfg=cfg, opts=opts))
                 if not quick:
                     tasks.append(dict(harness='rebal', cfg=dict(targets=tg, cash=cash, fee=['pershare', 0.0625], spread=0, int=integer), opts=opts))
     for tg in ([['sub', 0.5], ['c', 0.25]], [['sub', 0.75]], [['c', 0.5]], [['sub', -0.25], ['c', 0.5]]):
